@@ -182,6 +182,73 @@ def worker(job):
     return shard
 
 
+ODD_INTS = [0, 1, -1, 127, 128, 255, 256, 300, -128, -129, 32767, 32768, 65535, 65536, 2147483647, 2147483648, 4294967295, 4294967296, -2147483648, -2147483649,
+            9223372036854775807, 9223372036854775808, 18446744073709551615, -9223372036854775808]
+ODD_NAMES = ["yield", "a", "a_b", "ok", "done", "fail", "x", "A", "finish_x", "y"]
+ODD_VALUES = ["x", "B_c", "c", "OK", "done", "y", "q", "b_c", "X", "FAIL"]
+
+
+@st.composite
+def odd_decl_source(draw):
+    """Declarations at the edges of what the compiler accepts: integer constants at and beyond every width (as default, assigned, compared, appended),
+    and output / enumerator / result-code names that may run into each other once they are turned into C identifiers."""
+    lines = []
+    stmts = ['"a";']
+    w = draw(st.sampled_from(["", "{unsigned}", "{size 1}", "{unsigned, size 1}", "{size 2}", "{unsigned, size 2}", "{size 4}", "{unsigned, size 4}", "{size 8}", "{unsigned, size 8}"]))
+    k = lambda: str(draw(st.sampled_from(ODD_INTS)))      # noqa: E731
+    lines.append("out int%s v%s;" % (w, (" = " + k()) if draw(st.booleans()) else ""))
+    lines.append("out str[4] s;")
+    lines.append("hook h;")
+    for _ in range(draw(st.integers(1, 3))):
+        # (comparisons only with small constants: a comparison that the declared width makes always true / false draws clang's tautology
+        #  warning, which is about the user's expression, transcribed faithfully)
+        stmts.append(draw(st.sampled_from(["v = %s;", "v = [%s];", "s += [%s];", "v = [v + %s];", "v = [%s];"])) % k() if draw(st.integers(0, 3)) > 0
+                     else draw(st.sampled_from(["if v == %s { h(); }", "if v < %s { h(); }", "if %s > v { \"k\"; }"])) % draw(st.sampled_from(["1", "2", "100"])))
+    used = set(["v", "s", "h"])
+    if draw(st.integers(0, 2)) > 0:
+        for _ in range(draw(st.integers(1, 2))):
+            name = draw(st.sampled_from(ODD_NAMES))
+            if name in used:
+                continue
+            used.add(name)
+            vals = draw(st.lists(st.sampled_from(ODD_VALUES), min_size=2, max_size=3, unique=True))
+            lines.append("out enum{%s} %s;" % (",".join(vals), name))
+            stmts.append("%s = %s;" % (name, vals[-1]))
+    argv = [draw(st.sampled_from(gen.OPT_LEVELS))]
+    if draw(st.booleans()):
+        codes = draw(st.lists(st.sampled_from(["x", "c", "y", "B_c"]), min_size=1, max_size=2, unique=True))
+        lines.append("finishcode %s;" % ", ".join(codes))
+        stmts.append("if v == 1 { finish %s; }" % codes[0])
+    if draw(st.booleans()):
+        codes = draw(st.lists(st.sampled_from(["x", "c", "y", "q"]), min_size=1, max_size=2, unique=True))
+        lines.append("yieldcode %s;" % ", ".join(codes))
+        stmts.append("yield %s;" % codes[0])
+        argv.append("-fyield-support")
+    stmts.append('"z";')
+    if draw(st.integers(0, 3)) == 0:
+        argv.append("-fuse-packed-enums")
+    return "\n".join(lines) + "\nparser {\n    " + "\n    ".join(stmts) + "\n}\n", argv
+
+
+def odd_worker(job):
+    seed, n, known = job
+    shard = Shard()
+    wd = crun.new_workdir("c11o")
+
+    def body(val):
+        src, argv = val
+        if check_case(shard, src, argv, wd):
+            shard.event("odd_decl_accepted")
+            shard.nontriv(src + repr(argv))
+        shard.event("odd_decl_cases")
+
+    try:
+        common.hyp_run(shard, body, odd_decl_source(), n, seed, known_keys=known)
+    finally:
+        crun.drop_workdir(wd)
+    return shard
+
+
 def regress_worker(job):
     path, known = job
     shard = Shard()
@@ -238,6 +305,7 @@ def main(ctx):
     repo = common.REPO
     corpus = sorted(glob.glob(os.path.join(repo, "example", "*.nmfu")) + glob.glob(os.path.join(repo, "example", "test", "*.ok.nmfu")))
     ctx.pmap(corpus_worker, [(p, a, known) for p in corpus for a in (CORPUS_ARGV[:2] if quick else CORPUS_ARGV)])
+    ctx.pmap(odd_worker, [(ctx.seed * 100003 + 300 + i, 12 if quick else 150, known) for i in range(8)])
     n = 120 if quick else 2000
     stop_at = time.time() + (75 if quick else 900)
     ctx.pmap(worker, [(ctx.seed * 100003 + i, n, known, stop_at) for i in range(common.NPROC)])
@@ -246,9 +314,10 @@ def main(ctx):
     ctx.total.extra["flag_pair_coverage"] = "%d of %d (flag,flag,value,value) combinations exercised on accepted cases" % (len(pairs), total_pairs)
     ctx.rule = ("case = (random subset of %d code-generation flags + -O level + range length, generated program using what the flags allow) plus "
                 "the repository's example corpus under 2 (quick) / 4 (thorough) option sets; evaluations = accepted cases put through the five "
-                "compiler runs and the API scrape. Non-trivial: >= 3 non-default flags and >= 4 distinct statement kinds; distinct by (source, argv)." % len(FLAGS))
+                "compiler runs and the API scrape; plus a family of declarations at the edges (integer constants at and beyond every width as default / assigned / compared / appended; "
+                "output, enumerator and result-code names that may collide once turned into C identifiers). Non-trivial: >= 3 non-default flags and >= 4 distinct statement kinds; distinct by (source, argv)." % len(FLAGS))
     ctx.assumptions = ["gcc 12 and clang 14 on x86-64 only", "unused labels are excepted as the property states"]
-    ctx.required_classes = ["evaluations", "corpus_cases"]
+    ctx.required_classes = ["evaluations", "corpus_cases", "odd_decl_accepted"]
 
 
 def replay(ctx, data):
